@@ -1,7 +1,7 @@
 (* Executable checkers used by the correspondence run of C04 (evaluated with vm_compute on what the harness
    observed on the implementation in isolated worker processes).  Must not import proofs. *)
 From P2 Require Import Base.Prelude Lex.Token Lex.Tok Run.C15Run.
-From P2 Require Conc.TokChan.
+From P2 Require Conc.TokChan Syn.Ast Syn.Parse Syn.ParseOpt.
 Local Open Scope N_scope.
 
 (* inputs and token streams travel as segments (piece, repetitions): 30000 nested parentheses are three segments *)
@@ -15,30 +15,64 @@ Definition expand {X : Type} (segs : list (list X * N)) : list X :=
    total = tokens the tokenizer produced *)
 Definition c04_obs := (N * bool * N * N)%type.
 
+(* the parser half of a case: what Parser.Parse (with the optimizer setting of the case) did on the input -
+   pkind 0 = an AST, 1 = an error, 2 = a panic escaped, 3 = not observed;
+   the number images of the input ParseNumber rejects; the identifiers of the input the generator knows
+   (name, 0 = constant, 1 = static function); per generator: binary operators in priority order, prefix operators,
+   whether a string handler is installed, the argument names handed to Generate *)
+Definition c04_ptab := (list str * list str * bool * list str)%type.
+Definition c04_par := (N * list str * list (str * N) * c04_ptab)%type.
+
+Definition par_cfg (bad : list str) (t : c04_ptab) : Parse.pcfg :=
+  let '(ops, unary, strh, _) := t in
+  Parse.mkPcfg ops unary (Some (fun img => if Parse.mem_str img bad then None else Some img))
+               (if strh then Some (fun s => s) else None).
+
+Definition par_ids (known : list (str * N)) (t : c04_ptab) : Parse.idents :=
+  let '(_, _, _, args) := t in
+  (match args with [] => [] | _ => [Parse.SArgs args] end)
+  ++ map (fun k => if snd k =? 1 then Parse.id_function (fst k) else Parse.id_constant (fst k) [99]) known.
+
+Definition pkind_of (r : Parse.pres Ast.ast) : N :=
+  match r with Parse.POk _ => 0 | Parse.PErr => 1 | Parse.PPanic => 2 | Parse.POOF => 4 end.
+
+(* the two extreme optimizers: none, and one that panics on every call (under the recover of parser2.Optimize) *)
+Definition par_kinds (p : c04_par) (toks : list token) : N * N :=
+  let '(_, bad, known, t) := p in
+  let ts := map Parse.untok toks in
+  (pkind_of (ParseOpt.oparse (par_cfg bad t) None (fun _ => true) (par_ids known t) ts),
+   pkind_of (ParseOpt.oparse (par_cfg bad t) (Some (fun a => ParseOpt.OPanic a)) (fun _ => true) (par_ids known t) ts)).
+
 (* id, configuration (operators, text operators, keywords, comments, comfort, letters, numbers of the input),
-   input segments (runes after UTF-8 decoding, one U+FFFD per invalid byte), observed token segments, outcome *)
-Definition c04_case := (N * c15_cfg * list (list N * N) * list (list (N * str * N) * N) * c04_obs)%type.
-Definition c04_id (c : c04_case) : N := let '(id, _, _, _, _) := c in id.
+   input segments (runes after UTF-8 decoding, one U+FFFD per invalid byte), observed token segments, outcome,
+   parser half *)
+Definition c04_case := (N * c15_cfg * list (list N * N) * list (list (N * str * N) * N) * c04_obs * c04_par)%type.
+Definition c04_id (c : c04_case) : N := let '(id, _, _, _, _, _) := c in id.
 
 (* model of the implementation = implementation: the scanner model yields exactly the observed token stream
-   (also on malformed input), within the linear fuel *)
+   (also on malformed input), within the linear fuel; and the parser model with the optimizer calls (Syn/ParseOpt.v),
+   run on the observed tokens without an optimizer AND with an optimizer that panics on every call, gives the
+   outcome kind (AST / error) Parser.Parse gave *)
 Definition c04_im (c : c04_case) : bool :=
-  let '(_, d, isegs, osegs, o) := c in
+  let '(_, d, isegs, osegs, o, p) := c in
   let '(outcome, known, received, total) := o in
   let input := expand isegs in
   let obs := obs_tokens (expand osegs) in
   match tokenize_fuel (length input + 2) (cfg_of d) input with
   | Some ts => toks_eqb ts obs && (negb known || (N.of_nat (length ts) =? total))
+               && (let '(pk, _, _, _) := p in
+                   (pk =? 3) || (let '(k0, k1) := par_kinds p obs in (k0 =? pk) && (k1 =? pk)))
   | None => false
   end.
 
 (* the implementation satisfies the specification side: Generate returned a function or an error - no panic, no
-   timeout, no crash; a successful parse has received every token; and the protocol model, run with the observed
-   tokens and the observed number of receives, ends with both goroutines returned *)
+   timeout, no crash; Parse returned an AST or an error; a successful parse has received every token; and the protocol
+   model, run with the observed tokens and the observed number of receives, ends with both goroutines returned *)
 Definition c04_is (c : c04_case) : bool :=
-  let '(_, _, _, osegs, o) := c in
+  let '(_, _, _, osegs, o, p) := c in
   let '(outcome, known, received, total) := o in
-  (outcome <=? 1)
+  let '(pk, _, _, _) := p in
+  (outcome <=? 1) && negb (pk =? 2)
   && (negb known
       || ((received <=? total) && (negb (outcome =? 0) || (received =? total))
           && (let obs := expand osegs in
